@@ -90,26 +90,26 @@ pub struct StructCase {
     /// C07: stack of the collecting thread in KiB (0 = main thread)
     #[serde(default)]
     pub stack_kib: u32,
+    /// additionally hold every node whose id is congruent to `hold_every.1` modulo `hold_every.0`
+    /// (e.g. (2, 1) = every leaf of a comb)
+    #[serde(default)]
+    pub hold_every: Option<(u8, u8)>,
 }
 
 /// Builds the structure; returns (head, all nodes' Rc for `hold` selection is done by index walk).
 /// Node ids are 0..n; node i's children: chain: i+1; tree: 2i+1, 2i+2; comb: spine i -> i+2 (even
 /// ids are spine), leaf i+1.
-fn build(c: &StructCase) -> (Rc<LNode>, Option<Rc<LNode>>, usize) {
+fn build(c: &StructCase) -> (Rc<LNode>, Vec<Rc<LNode>>, usize) {
     let n = c.n as usize;
     *SEEN.lock().unwrap() = vec![0u8; n];
-    let children = |i: usize| -> (Option<usize>, Option<usize>) {
-        match c.shape {
-            1 => (
-                if 2 * i + 1 < n { Some(2 * i + 1) } else { None },
-                if 2 * i + 2 < n { Some(2 * i + 2) } else { None },
-            ),
+    let shape = c.shape;
+    let children = move |i: usize| -> (Option<usize>, Option<usize>) {
+        let some = |j: usize| if j < n { Some(j) } else { None };
+        match shape {
+            1 => (some(2 * i + 1), some(2 * i + 2)),
             2 => {
                 if i % 2 == 0 {
-                    (
-                        if i + 2 < n { Some(i + 2) } else { None },
-                        if i + 1 < n { Some(i + 1) } else { None },
-                    )
+                    (some(i + 2), some(i + 1))
                 } else {
                     (None, None)
                 }
@@ -117,29 +117,35 @@ fn build(c: &StructCase) -> (Rc<LNode>, Option<Rc<LNode>>, usize) {
             // comb whose leaf is handed to the cascade before the spine successor
             4 => {
                 if i % 2 == 0 {
-                    (
-                        if i + 1 < n { Some(i + 1) } else { None },
-                        if i + 2 < n { Some(i + 2) } else { None },
-                    )
+                    (some(i + 1), some(i + 2))
                 } else {
                     (None, None)
                 }
             }
             // spine with a two-node twig per spine node (ids 3k spine, 3k+1 -> 3k+2 twig)
             5 => match i % 3 {
-                0 => (
-                    if i + 1 < n { Some(i + 1) } else { None },
-                    if i + 3 < n { Some(i + 3) } else { None },
-                ),
-                1 => (if i + 1 < n { Some(i + 1) } else { None }, None),
+                0 => (some(i + 1), some(i + 3)),
+                1 => (some(i + 1), None),
                 _ => (None, None),
             },
-            _ => (if i + 1 < n { Some(i + 1) } else { None }, None),
+            _ => (some(i + 1), None),
         }
     };
-    let hold_idx = c.hold.map(|h| ((h as usize * n) >> 8).max(1).min(n - 1)).filter(|_| n >= 2);
-    let mut held = None;
-    // build back to front; nodes are kept in a sliding window only as long as a parent needs them
+    let hold_idx = c.hold.map(|h| ((h as usize * n) >> 8).max(1).min(n.saturating_sub(1))).filter(|_| n >= 2);
+    let is_held = |i: usize| -> bool {
+        if i == 0 {
+            return false;
+        }
+        if Some(i) == hold_idx {
+            return true;
+        }
+        match c.hold_every {
+            Some((m, r)) if m >= 2 => i % m as usize == (r % m) as usize,
+            _ => false,
+        }
+    };
+    let mut held = Vec::new();
+    // build back to front; a node is kept in the table only until its parent has taken it
     let mut nodes: Vec<Option<Rc<LNode>>> = (0..n).map(|_| None).collect();
     let seg = (n / (c.band as usize + 1)).max(1);
     for i in (0..n).rev() {
@@ -173,31 +179,30 @@ fn build(c: &StructCase) -> (Rc<LNode>, Option<Rc<LNode>>, usize) {
                 keep_edge: c.shape == 3,
             })
         };
-        if Some(i) == hold_idx {
-            held = Some(node.clone());
+        if is_held(i) {
+            held.push(node.clone());
         }
         nodes[i] = Some(node);
     }
     let head = nodes[0].take().unwrap();
-    // number of nodes reachable from the held node
-    let reach = match hold_idx {
-        None => 0,
-        Some(h) => {
-            let mut cnt = 0usize;
-            let mut stack = vec![h];
-            while let Some(i) = stack.pop() {
-                cnt += 1;
-                let (a, b) = children(i);
-                if let Some(a) = a {
-                    stack.push(a);
-                }
-                if let Some(b) = b {
-                    stack.push(b);
-                }
-            }
-            cnt
+    // number of nodes reachable from the held nodes
+    let mut mark = vec![false; n];
+    let mut reach = 0usize;
+    let mut stack: Vec<usize> = (1..n).filter(|i| is_held(*i)).collect();
+    while let Some(i) = stack.pop() {
+        if mark[i] {
+            continue;
         }
-    };
+        mark[i] = true;
+        reach += 1;
+        let (a, b) = children(i);
+        if let Some(a) = a {
+            stack.push(a);
+        }
+        if let Some(b) = b {
+            stack.push(b);
+        }
+    }
     (head, held, reach)
 }
 
@@ -216,8 +221,9 @@ pub fn c06_strategy(t: Tier) -> BoxedStrategy<Value> {
         3u8..41,
         0u8..21,
         prop_oneof![2 => Just(None), 1 => any::<u8>().prop_map(Some)],
+        prop_oneof![3 => Just(None), 2 => (2u8..6, 0u8..6).prop_map(Some)],
     )
-        .prop_map(|(n, shape, align, band, stamped, wait, flush_delay, hold)| {
+        .prop_map(|(n, shape, align, band, stamped, wait, flush_delay, hold, hold_every)| {
             serde_json::to_value(StructCase {
                 n,
                 shape,
@@ -228,6 +234,7 @@ pub fn c06_strategy(t: Tier) -> BoxedStrategy<Value> {
                 flush_delay,
                 hold,
                 stack_kib: 0,
+                hold_every,
             })
             .unwrap()
         })
@@ -276,20 +283,22 @@ pub fn exec_c06(_prop: &str, v: &Value) -> Report {
         round();
     }
     if DROPPED.load(SeqCst) != expect || POPPED.load(SeqCst) != expect {
-        let d = format!("n={} hold={:?}: {} nodes destructed, expected exactly {} (nodes reachable from the externally held node must survive)", c.n, c.hold, DROPPED.load(SeqCst), expect);
+        let d = format!("n={} hold={:?}/{:?}: {} nodes destructed, expected exactly {} (nodes reachable from the externally held node must survive)", c.n, c.hold, c.hold_every, DROPPED.load(SeqCst), expect);
         violation("C06", "O-latency", "O-latency/held-substructure-destructed", &d);
     }
-    if let Some(h) = &held {
-        // walk the held sub-structure: everything must be alive and intact
+    if !held.is_empty() {
+        // walk the held sub-structures: everything must be alive and intact
         let g = cs();
-        let mut cnt = 0usize;
-        let mut stack = vec![h.snapshot(&g)];
+        let mut visited = std::collections::HashSet::new();
+        let mut stack: Vec<_> = held.iter().map(|h| h.snapshot(&g)).collect();
         while let Some(s) = stack.pop() {
             let nd = s.as_ref().unwrap();
-            if SEEN.lock().unwrap()[nd.id as usize] != 0 {
-                violation("C06", "O-latency", "O-latency/held-node-destructed", &format!("node {} below the held node was destructed", nd.id));
+            if !visited.insert(nd.id) {
+                continue;
             }
-            cnt += 1;
+            if SEEN.lock().unwrap()[nd.id as usize] != 0 {
+                violation("C06", "O-latency", "O-latency/held-node-destructed", &format!("node {} below a held node was destructed", nd.id));
+            }
             for e in 0..2 {
                 let ch = nd.edges[e].load(SeqCst, &g);
                 if !ch.is_null() {
@@ -297,8 +306,8 @@ pub fn exec_c06(_prop: &str, v: &Value) -> Report {
                 }
             }
         }
-        if cnt != reach {
-            violation("C06", "O-latency", "O-latency/held-substructure-broken", &format!("{} nodes reachable from the held node, expected {}", cnt, reach));
+        if visited.len() != reach {
+            violation("C06", "O-latency", "O-latency/held-substructure-broken", &format!("{} nodes reachable from the held nodes, expected {}", visited.len(), reach));
         }
     }
     let mut rep = Report::default();
@@ -307,8 +316,10 @@ pub fn exec_c06(_prop: &str, v: &Value) -> Report {
     rep.count("epochs_to_reclaim", delta as u64);
     rep.count("rounds", rounds);
     rep.label(["chain", "tree", "comb", "chain", "comb-leaf-first", "spine-with-twigs"][c.shape as usize % 6]);
-    if held.is_some() {
-        rep.label("external-holder");
+    if held.len() == 1 {
+        rep.label("one-external-holder");
+    } else if held.len() > 1 {
+        rep.label("many-external-holders");
     }
     if c.n >= 4096 {
         let per = delta as f64 / segs as f64;
@@ -342,6 +353,7 @@ pub fn c07_strategy(t: Tier) -> BoxedStrategy<Value> {
                 flush_delay: 0,
                 hold: None,
                 stack_kib,
+                hold_every: None,
             })
             .unwrap()
         })
